@@ -9,6 +9,15 @@ from harness import zoo
 SHAPES = {'s1': (4,), 's2': (2, 3)}
 
 
+def times_two_plus_one(x):
+    """forward function of the two-way link (module-level so that sessions can name it); not its own inverse"""
+    return x * 2.0 + 1.0
+
+
+def minus_one_halved(y):
+    return (y - 1.0) / 2.0
+
+
 def enc(a):
     a = np.asarray(a)
     if a.dtype.kind in 'fc':
@@ -44,6 +53,9 @@ class SWorld(object):
         # a categorical component with explicit categories: custom order and an unused category
         z.o.add_component(CategoricalComponent(np.array(['b', 'a', 'zz', 'b', 'a', 'b'][:n] if n <= 6 else ['b'] * n).reshape(z.shape),
                                                categories=np.array(['zz', 'b', 'unused', 'a'])), 'cc')
+        # ... and one with a custom order in which every category is used
+        z.o.add_component(CategoricalComponent(np.array(['b', 'a', 'zz', 'b', 'a', 'b'][:n] if n <= 6 else ['b'] * n).reshape(z.shape),
+                                               categories=np.array(['zz', 'b', 'a'] if n >= 3 else ['b', 'a'])), 'cc2')
         z.o.add_component((np.datetime64('2020-01-01T00:00:00') + np.arange(n) * np.timedelta64(36, 'h')).reshape(z.shape), 'when')
         z.d.style.color = '#102030'
         z.d.style.alpha = 0.25
@@ -88,7 +100,7 @@ class SWorld(object):
         if kind == 'LinkSame':
             link = L.LinkSame(d.id['i'], o.id['y'])
         elif kind == 'LinkTwoWay':
-            link = L.LinkTwoWay(d.id['i'], o.id['y'], L.identity, L.identity)
+            link = L.LinkTwoWay(d.id['i'], o.id['y'], times_two_plus_one, minus_one_halved)
         elif kind == 'LinkSameWithUnits':
             link = L.LinkSameWithUnits(d.id['i'], o.id['y'])
         elif kind == 'LinkAligned':
